@@ -1,5 +1,6 @@
 """C07 quantile sketches: weights, extremes, coherent answers (DESIGN.md section 5 C07): structural clauses."""
 import quantile_rules as Q
+import cowrite
 
 
 def run(facts, tier):
@@ -9,6 +10,7 @@ def run(facts, tier):
         ("query guards", Q.query_guards, 18, "every query is dominated by the empty check that throws; get_quantile by the rank range check"),
         ("cache invalidation", Q.cache_invalidation, 9, "every public mutator invalidates the cached sorted view on every data-modifying path"),
         ("compaction triggers", Q.compaction_triggers, 2, "compaction triggers include the capacity boundary"),
+        ("couplings", lambda fa: cowrite.obligations(fa, ['kll_sketch', 'req_sketch', 'quantiles_sketch']), 10, "fields that every mutator updates together (counters, extremes, cached values) are still updated together"),
     ):
         o = f(facts)
         obs += o
